@@ -10,11 +10,14 @@
  * PLACE (byte offset 0..15 of the PDU relative to a 16-byte boundary), EXTENT (heap|guard),
  * DUMP (1: print the transcript as text), EPISODES.
  */
+#define VP_PROGRESS 1
 #include "vp.h"
 #include "vp_bind.h"
 #include "avtp/Utils.h"
 
 #define ARENA_SZ   8192
+#define NDERIVED   16
+#define NEGVALS    40   /* field contents / values -1 .. -NEGVALS (negated errno values) */
 #define PDU_BASE   2048
 #define MAXHDR     64
 #define EINVAL_RC  (-22)
@@ -190,6 +193,10 @@ static void mode_read(fm_t* m, uint64_t* nontrivial)
                 uint64_t v = read_one(m, fld, path, "random");
                 if (v != lastv) { distinct++; lastv = v; }
             }
+            for (uint64_t k = 1; k <= NEGVALS; k++) {
+                vp_rng_fill(&m->c->rng, hdr, n); bf_set(hdr, fld->pos, fld->width, ((uint64_t)0 - k) & bf_mask(fld->width)); fm_load(m, hdr, n);
+                read_one(m, fld, path, "negated-small");
+            }
             /* every value of a small field (width <= 12) on a random background: exhaustive in the field's own bits */
             if (fld->width > 0 && fld->width <= 12) {
                 for (uint64_t val = 0; val < ((uint64_t)1 << fld->width); val++) {
@@ -199,6 +206,32 @@ static void mode_read(fm_t* m, uint64_t* nontrivial)
             }
             if (distinct > 1) (*nontrivial)++;
         }
+    }
+}
+
+/* values derived from what the field holds at the moment: equal halves, same low bytes, neighbours - the inputs on which a
+ * "skip the write when nothing changes" or compare-before-write shortcut with a narrowed comparison goes wrong */
+
+static uint64_t derived_value(vp_rng_t* r, uint32_t k, uint64_t old, uint32_t width)
+{
+    uint64_t hi = width > 32 ? width - 32 : width / 2;
+    switch (k % NDERIVED) {
+    case 0:  return old;
+    case 1:  return old & 0xffffffffull;
+    case 2:  return old & 0xffffull;
+    case 3:  return old & 0xffull;
+    case 4:  return old >> 32;
+    case 5:  return old ^ 1;
+    case 6:  return width ? old ^ ((uint64_t)1 << (width - 1)) : old;
+    case 7:  return old & ~0xffffffffull;
+    case 8:  return old & ~0xffull;
+    case 9:  return old + 1;
+    case 10: return old - 1;
+    case 11: return ~old;
+    case 12: return width < 64 ? old | (vp_rng_next(r) << width) : old;
+    case 13: return (old << 32) | (old & 0xffffffffull);
+    case 14: return hi ? old ^ ((uint64_t)1 << hi) : old;
+    default: return (old >> 8) | (old << 56);
     }
 }
 
@@ -256,6 +289,22 @@ static void mode_write(fm_t* m, uint64_t* nontrivial)
                 vp_rng_fill(&m->c->rng, hdr, n); fm_load(m, hdr, n);
                 write_one(m, fld, path, vp_value_class(&m->c->rng, 12 + (uint32_t)(r & 1), fld->width), &changed);
             }
+            for (uint64_t k = 1; k <= NEGVALS; k++) {
+                vp_rng_fill(&m->c->rng, hdr, n);
+                if (k & 1) bf_set(hdr, fld->pos, fld->width, ((uint64_t)0 - k) & bf_mask(fld->width));
+                fm_load(m, hdr, n);
+                write_one(m, fld, path, (k & 1) ? vp_rng_next(&m->c->rng) & bf_mask(fld->width) : (uint64_t)0 - k, &changed);
+            }
+            /* values related to the current contents of the field (random and half-zero prior contents) */
+            for (uint32_t k = 0; k < 3 * NDERIVED; k++) {
+                vp_rng_fill(&m->c->rng, hdr, n);
+                if (k >= NDERIVED && fld->width > 1) {
+                    uint64_t half = fld->width / 2, cur = bf_get(hdr, fld->pos, fld->width);
+                    bf_set(hdr, fld->pos, fld->width, k < 2 * NDERIVED ? (cur & (((uint64_t)1 << half) - 1)) : (cur & ~(((uint64_t)1 << half) - 1)));
+                }
+                fm_load(m, hdr, n);
+                write_one(m, fld, path, derived_value(&m->c->rng, k, bf_get(hdr, fld->pos, fld->width), fld->width), &changed);
+            }
             /* every value of a small field (width <= 12), also with garbage above the field width */
             if (fld->width > 0 && fld->width <= 12) {
                 for (uint64_t val = 0; val < ((uint64_t)1 << fld->width); val++) {
@@ -274,7 +323,7 @@ static void mode_write(fm_t* m, uint64_t* nontrivial)
 static void mode_raw(fm_t* m, uint64_t* nontrivial)
 {
     /* every descriptor shape: start quadlet 0..7 (+ a few larger), bit offset 0..31, width 0..64 */
-    static const uint32_t quads[] = { 0, 1, 2, 3, 4, 5, 6, 7, 11, 30, 61 };
+    static const uint32_t quads[] = { 0, 1, 2, 3, 4, 5, 6, 7, 11, 30, 61, 63, 64, 127, 128, 200, 253 };
     Avtp_FieldDescriptor_t desc[3];
     vp_ctx_t* c = m->c;
     m->f = 0;
@@ -400,6 +449,24 @@ static void mode_extent(fm_t* m, uint64_t* nontrivial)
         vp_call(c);
         uint8_t* q = f->payload_ptr(p);
         u32fact(m, "payload_accessor-pdu", (uint64_t)(q - p), f->spec_bytes);
+        /* whatever the header holds: every value of every header byte on zero / all-ones / random backgrounds, every value of
+         * every field up to 8 bits wide, random headers */
+        uint8_t hdr[MAXHDR]; size_t hn = f->spec_bytes;
+        for (uint32_t bg = 0; bg < 3; bg++) for (size_t b = 0; b < hn; b++) for (uint32_t val = 0; val < 256; val++) {
+            if (bg == 0) memset(hdr, 0, hn); else if (bg == 1) memset(hdr, 0xff, hn); else vp_rng_fill(&c->rng, hdr, hn);
+            hdr[b] = (uint8_t)val; fm_load(m, hdr, hn);
+            vp_call(c);
+            q = f->payload_ptr(PDU(m));
+            u32fact(m, "payload_accessor-pdu(header-contents)", (uint64_t)(q - PDU(m)), f->spec_bytes);
+            fm_check(m, "extent", "payload-accessor", "call", hn, 0, 0);
+        }
+        for (uint32_t fi = 0; fi < f->nfields; fi++) if (f->fields[fi].width && f->fields[fi].width <= 8)
+            for (uint64_t val = 0; val < ((uint64_t)1 << f->fields[fi].width); val++) {
+                vp_rng_fill(&c->rng, hdr, hn); bf_set(hdr, f->fields[fi].pos, f->fields[fi].width, val); fm_load(m, hdr, hn);
+                vp_call(c);
+                q = f->payload_ptr(PDU(m));
+                u32fact(m, "payload_accessor-pdu(header-contents)", (uint64_t)(q - PDU(m)), f->spec_bytes);
+            }
     }
     for (uint32_t i = 0; i < f->nlstructs; i++) {
         u32fact(m, f->lstructs[i].name, f->lstructs[i].size, f->lstructs[i].expect_size);
@@ -731,8 +798,10 @@ static void mode_badargs(fm_t* m, uint64_t* nontrivial)
             ba_run(m, &g3, "null-pdu+null-result", "valid-id", 1, EINVAL_RC, nontrivial);
             ba_call_t s = { f, fld, 6, fld->id, vp_rng_next(&c->rng), 0, 0, 0, 0 };
             ba_run(m, &s, "null-pdu", "valid-id", 1, EINVAL_RC, nontrivial);
-            /* valid arguments: success, result equals the model */
-            {
+            /* valid arguments: success, result equals the model - whatever the field holds (k > 0: the field holds -k, the
+             * values an implementation might use as an in-band error marker) */
+            for (uint32_t k = 0; k <= NEGVALS; k++) {
+                if (k) { uint64_t nv = ((uint64_t)0 - k) & bf_mask(fld->width); bf_set(PDU(m), fld->pos, fld->width, nv); bf_set(SH(m), fld->pos, fld->width, nv); }
                 uint64_t exp = bf_get(SH(m), fld->pos, fld->width);
                 uint8_t* sres = m->a.shadow + m->off + 256;
                 memset(res, 0xc3, 8); memset(sres, 0xc3, 8);
@@ -818,8 +887,10 @@ static void mode_legacy(fm_t* m, fm_t* m2, uint64_t* nontrivial)
         const vp_field_t* fld = &f->fields[fi];
         if (fld->id >= f->max_id) continue;
         uint64_t distinct = 0;
-        for (uint64_t r = 0; r < 6 + g_reps; r++) {
+        for (uint64_t r = 0; r < 6 + NEGVALS + g_reps; r++) {
             make_buffer(&c->rng, r < 6 ? (uint32_t)r : BC_RANDOM, hdr, n, fld);
+            /* field contents that look like a negated errno value (-1 .. -NEGVALS): in-band error markers must not exist */
+            if (r >= 6 && r < 6 + NEGVALS) bf_set(hdr, fld->pos, fld->width, ((uint64_t)0 - (r - 5)) & bf_mask(fld->width));
             fm_load(m, hdr, n); fm_load(m2, hdr, n);
             /* get */
             uint64_t lv = 0; uint32_t lv32 = 0; int rc;
@@ -838,7 +909,9 @@ static void mode_legacy(fm_t* m, fm_t* m2, uint64_t* nontrivial)
             }
             fm_check(m, "legacy", fld->name, "get", n, 0, 0);
             /* set: legacy on m, current on m2, both judged by the model */
-            uint64_t v = vp_value_class(&c->rng, (uint32_t)r, fld->width);
+            uint64_t v = (r >= 6 + NEGVALS && (r & 3) == 1) ? derived_value(&c->rng, (uint32_t)(r >> 2), bf_get(SH(m), fld->pos, fld->width), fld->width)
+                       : (r >= 6 && r < 6 + NEGVALS && (r & 1)) ? (uint64_t)0 - (NEGVALS + 6 - r)
+                       : vp_value_class(&c->rng, (uint32_t)r, fld->width);
             uint64_t lmv = (f->lvalbytes == 4 ? (uint32_t)v : v) & bf_mask(fld->width);
             bf_set(SH(m), fld->pos, fld->width, lmv);
             bf_set(SH(m2), fld->pos, fld->width, v & bf_mask(fld->width));
@@ -932,7 +1005,8 @@ static void mode_views(fm_t* m, fm_t* m2, const char* filter, uint64_t* nontrivi
                         o_s(c, "{\"a\":\""); o_x(c, va); o_s(c, "\",\"b\":\""); o_x(c, vb); o_s(c, "\",\"buffer\":\""); o_hex(c, PDU(m), n); o_s(c, "\"}"); o_end(c);
                     }
                     /* write through A on m, through B on m2 */
-                    uint64_t v = vp_value_class(&c->rng, (uint32_t)r, fa->width);
+                    uint64_t v = (r >= 6 && (r & 3) == 1) ? derived_value(&c->rng, (uint32_t)(r >> 2), bf_get(SH(m), fa->pos, fa->width), fa->width)
+                                                          : vp_value_class(&c->rng, (uint32_t)r, fa->width);
                     uint64_t mv = v & bf_mask(fa->width);
                     bf_set(SH(m), fa->pos, fa->width, mv); bf_set(SH(m2), fb->pos, fb->width, mv);
                     views_noise(c);
@@ -1271,6 +1345,7 @@ static vp_ctx_t g_ctx;
 
 int main(void)
 {
+    vp_watchdog_start();       /* these monitors call the library continuously: a long silence is a spinning call */
     vp_ctx_t* c = &g_ctx;
     const char* mode = vp_cfg_str("MODE", "read");
     const char* formats = vp_cfg_str("FORMATS", "all");
